@@ -299,9 +299,16 @@ def import_symbol(policy: PyrefPolicy, module: str, symbol: str):
   """
   value = PyrefPolicyError.PRE_IMPORT
   if policy.allows_import(module, symbol):
-    module = special_overrides.maybe_get_module_override_for_migrated_serialization_symbol(
+    actual_module = special_overrides.maybe_get_module_override_for_migrated_serialization_symbol(
         module, symbol
     )
+    # A symbol that has moved is imported from its new module: the policy has
+    # to approve that module as well, not only the name the document uses.
+    if actual_module != module and not policy.allows_import(
+        actual_module, symbol
+    ):
+      raise PyrefPolicyError(policy, actual_module, symbol, value)
+    module = actual_module
     make_message = functools.partial(_fiddle_pyref_context, module, symbol)
     with reraised_exception.try_with_lazy_message(make_message):
       value = importlib.import_module(module)
